@@ -488,6 +488,7 @@ def run_c20(rep):
     fam_stdlib.stdlib_family(rep, n, ops)
     fam_stdlib.independence_probe(rep, sizes(rep, 60, 1000))
     fam_stdlib.fractional_weights_probe(rep, sizes(rep, 80, 1500))
+    fam_stdlib.reentrant_threshold_probe(rep, sizes(rep, 80, 1500))
 
 
 def run_c06(rep):
